@@ -113,18 +113,19 @@ type boot struct {
 }
 
 type session struct {
-	n            int
-	id           string
-	in, out      *client
-	io           *client
-	sentOut      []byte // bytes sent on the output stream
-	plainFrom    int
-	closed       bool
-	closing      bool
-	readyAtOpen  int
-	readyChecked bool
-	noJudge      bool
-	expectOK     bool
+	n              int
+	id             string
+	in, out        *client
+	io             *client
+	sentOut        []byte // bytes sent on the output stream
+	plainFrom      int
+	closed         bool
+	closing        bool
+	readyAtOpen    int
+	readyChecked   bool
+	noJudge        bool
+	resetWithLines bool // the client reset the connection while lines were being entered
+	expectOK       bool
 }
 
 type scriptInfo struct {
@@ -224,10 +225,11 @@ func (s *sim) flushObs(act string) {
 }
 
 var (
-	probeOnce sync.Once
-	haveV6    bool
-	haveWild  bool
-	runSerial int64
+	probeOnce     sync.Once
+	haveV6        bool
+	haveWild      bool
+	haveLocalhost bool
+	runSerial     int64
 )
 
 func probeHost() {
@@ -235,6 +237,25 @@ func probeHost() {
 		if l, err := net.Listen("tcp", "[::1]:0"); err == nil {
 			haveV6 = true
 			l.Close()
+		}
+		if b, err := os.ReadFile("/etc/hosts"); err == nil {
+			for _, l := range strings.Split(string(b), "\n") {
+				f := strings.Fields(l)
+				if len(f) >= 2 && f[0] == "127.0.0.1" {
+					for _, n := range f[1:] {
+						if n == "localhost" {
+							haveLocalhost = true
+						}
+					}
+				}
+			}
+		}
+		if haveLocalhost {
+			// the resolver's process-wide state must come into being outside any
+			// bubble (its channels would otherwise belong to the first bubble)
+			if as, err := net.LookupHost("localhost"); err != nil || len(as) == 0 {
+				haveLocalhost = false
+			}
 		}
 		ifs, _ := net.Interfaces()
 		for _, nif := range ifs {
